@@ -330,6 +330,13 @@ def empties(ctx):
             if not (isinstance(n, ast.Call) and norm(n.func).endswith(".empty")):
                 continue
             n_e += 1
+            filled = _filled_by_enumerate_loop(f, n)
+            if filled is not None:
+                ok_, det_ = filled
+                ctx.ob("R09.4", f"{f.qual}: {norm(n)[:50]} is filled element by element over the sequence that sized it", ok_, detail=det_, where=f.fq,
+                       construct=f"np.empty in {f.qual}", loc=loc(f, n), message=f"the np.empty buffer is not provably overwritten on its whole extent: {det_}",
+                       consequence="uninitialised memory is returned: results differ from run to run")
+                continue
             if f.qual == "TDGLSolver.__init__":
                 solver_empty(ctx, f, n)
                 continue
@@ -370,6 +377,36 @@ def empties(ctx):
     ctx.note("empty_allocations", n_e)
 
 
+def _filled_by_enumerate_loop(f, n):
+    """`buf = np.empty(len(X), ...)` followed by `for i, x in enumerate(X): buf[i] = ...` (an unconditional store in the loop body,
+    no read of buf before the loop): (ok, detail), or None when the allocation has another shape."""
+    from ..cfg import parent_map
+    pm = parent_map(f.node)
+    par = pm.get(id(n), (None,))[0]
+    if not (isinstance(par, ast.Assign) and par.value is n and len(par.targets) == 1 and isinstance(par.targets[0], ast.Name)):
+        return None
+    if not (n.args and isinstance(n.args[0], ast.Call) and norm(n.args[0].func) == "len" and len(n.args[0].args) == 1):
+        return None
+    buf, seq = par.targets[0].id, norm(n.args[0].args[0])
+    blk, fld = pm[id(par)]
+    body = getattr(blk, fld)
+    after = body[body.index(par) + 1:]
+    for st in after:
+        reads = [x for x in ast.walk(st) if isinstance(x, ast.Name) and x.id == buf and isinstance(x.ctx, ast.Load)]
+        if isinstance(st, ast.For) and isinstance(st.iter, ast.Call) and norm(st.iter.func) == "enumerate" and st.iter.args \
+                and norm(st.iter.args[0]) == seq and isinstance(st.target, ast.Tuple) and isinstance(st.target.elts[0], ast.Name) and not st.orelse:
+            iv = st.target.elts[0].id
+            stores = [b for b in st.body if isinstance(b, ast.Assign) and len(b.targets) == 1 and isinstance(b.targets[0], ast.Subscript)
+                      and norm(b.targets[0].value) == buf and norm(b.targets[0].slice) == iv]
+            exits = [x for x in ast.walk(st) if isinstance(x, (ast.Break, ast.Continue))]
+            other_reads = [x for x in reads if not any(x is b.targets[0].value for b in stores)]
+            ok = len(stores) >= 1 and not exits and not other_reads
+            return ok, {"buffer": buf, "sized_by": seq, "stores": [norm(b)[:60] for b in stores]}
+        if reads:
+            return None          # another shape (a kernel loop ...): judged by the other rules
+    return None
+
+
 def solver_empty(ctx, f, n):
     """self.new_A_induced = np.empty((self.num_edges, 2)): filled by the screening kernel before any read."""
     repo = ctx.repo
@@ -383,24 +420,30 @@ def solver_empty(ctx, f, n):
     m_ = re.fullmatch(r"len\((.+)\.edges\)", ne[0]) if len(ne) == 1 else None
     same_space = bool(m_) and bool(ec_def) and (ec_def[0].endswith(f"* {m_.group(1)}.centers") or ec_def[0].startswith(f"{m_.group(1)}.centers *"))
     fg = repo.func("tdgl.solver.solver", "TDGLSolver.get_induced_vector_potential")
-    order = []
+    # every read of the buffer's content is preceded by a kernel call on every path (handing the buffer to the kernel, directly
+    # or packed in an argument tuple, is not a read)
+    from ..cfg import build_cfg, parent_map as _pm
+    from ..dataflow import stmt_of
+    cfgg = build_cfg(fg.node)
+    pmg = _pm(fg.node)
+    fill_stmts = [n_.id for n_ in cfgg.nodes if n_.kind == "stmt" and n_.ast is not None and any(
+        isinstance(x, ast.Call) and getattr(x.func, "id", "") in ("get_A_induced_numba", "get_A_induced_cupy") for x in ast.walk(n_.ast))]
+    fills = fill_stmts
+    late = []
     for x in own_nodes(fg.node):
-        if isinstance(x, ast.Call) and getattr(x.func, "id", "") in ("get_A_induced_numba", "get_A_induced_cupy"):
-            order.append(("fill", x.lineno))
         if isinstance(x, ast.Attribute) and x.attr == "new_A_induced" and isinstance(x.ctx, ast.Load):
-            par_is_arg = False
-            order.append(("use", x.lineno))
-    fills = [l for k, l in order if k == "fill"]
-    reads = [l for k, l in order if k == "use"]
-    # every use that is not an argument of the fill call must come after all fills
-    arg_lines = set()
-    for x in own_nodes(fg.node):
-        if isinstance(x, ast.Call) and getattr(x.func, "id", "") in ("get_A_induced_numba", "get_A_induced_cupy"):
-            for a in ast.walk(x):
-                if isinstance(a, ast.Attribute) and a.attr == "new_A_induced":
-                    arg_lines.add(a.lineno)
-    late = [l for l in reads if l not in arg_lines]
-    ok_order = bool(fills) and all(l > max(fills) for l in late)
+            par = pmg[id(x)][0]
+            if isinstance(par, (ast.Tuple, ast.List)) or (isinstance(par, ast.Call) and getattr(par.func, "id", "") in ("get_A_induced_numba", "get_A_induced_cupy")):
+                continue
+            st_ = stmt_of(x, pmg)
+            try:
+                nid = cfgg.node_of(st_).id
+            except Exception:
+                late.append(f"L{x.lineno}: outside the statement graph")
+                continue
+            if cfgg.path(cfgg.entry, nid, skip=set(fill_stmts), skip_edges=("exc",)) is not None:
+                late.append(f"L{x.lineno}: `{norm(st_)[:60]}` is reachable without a kernel call")
+    ok_order = bool(fill_stmts) and not late
     other_readers = []
     for g in repo.all_functions():
         if g.fq in (f.fq, fg.fq):
